@@ -65,7 +65,11 @@ func sizedStore(ls *ipld.LinkSystem, lp datamodel.LinkPrototype, n datamodel.Nod
 	lnk, err := wrappedLinkSystem(ls, func(bc int) {
 		byteCount = bc
 	}).Store(ipld.LinkContext{}, lp, n)
-	return lnk, uint64(byteCount), err
+	if err != nil {
+		// Store returns the computed link even when committing the block failed
+		return nil, 0, err
+	}
+	return lnk, uint64(byteCount), nil
 }
 
 type byteCounter struct {
